@@ -282,16 +282,22 @@ def r3_parse_actions(ctx, m) -> None:
     pp = prog.func(MOD + ".ConditionItem.postprocess")
 
     class _Leaf:
+        parent = None
+
         def postprocess(self, detections, parent, source=None):
+            self.parent = parent
             return self
 
     class ConditionNOT:  # stand-ins named like the real classes (the body may test isinstance)
         arg_count = 1
 
+        parent = None
+
         def __init__(self, args):
             self.args = args
 
         def postprocess(self, detections, parent, source=None):
+            self.parent = parent
             return self
 
     class ConditionAND(ConditionNOT):
@@ -312,7 +318,8 @@ def r3_parse_actions(ctx, m) -> None:
             live = [a for a in args if a is not None]
             if cls_.arg_count == 1 and len(args) > 1:
                 continue
-            it = Interp({"self": me, "detections": None, "parent": None, "source": None, "super": lambda: _Super(),
+            outer = object()
+            it = Interp({"self": me, "detections": None, "parent": outer, "source": None, "super": lambda: _Super(),
                          "ConditionNOT": ConditionNOT, "ConditionAND": ConditionAND, "ConditionOR": ConditionOR})
             try:
                 got = it.call(pp.node.body)
@@ -325,6 +332,8 @@ def r3_parse_actions(ctx, m) -> None:
             else:
                 want = me
             ncase += 1
+            if got is want and want is not me and want is not None and getattr(got, "parent", None) is not outer:
+                wrong.append(f"{cls_.__name__} with arguments {[type(a).__name__ for a in args]}: the returned argument still has the vanished operator as parent (parent-chain decisions — grouping, negation — see an operator that is not in the tree)")
             if got is not want:
                 wrong.append(f"{cls_.__name__} with arguments {[type(a).__name__ for a in args]}: returns {type(got).__name__ if not isinstance(got, str) else got}{' (its argument)' if got in live else ''} instead of {'itself' if want is me else type(want).__name__}")
     if wrong:
